@@ -233,14 +233,47 @@ func engineDirected() []namedScen {
 		cats := func(f gen.M) []any { return node(f, 0)["router"].(gen.M)["categories"].([]any) }
 		add("invalid-category-exit-of-another-node", mk(func(f gen.M) { cats(f)[0].(gen.M)["exit_uuid"] = gen.NamedUUID("exit:a2x") }))
 		add("invalid-category-exit-unknown", mk(func(f gen.M) { cats(f)[1].(gen.M)["exit_uuid"] = gen.NamedUUID("exit:nowhere") }))
-		add("invalid-exit-destination-unknown", mk(func(f gen.M) { node(f, 0)["exits"].([]any)[0].(gen.M)["destination_uuid"] = gen.NamedUUID("node:nowhere") }))
+		add("invalid-exit-destination-unknown", mk(func(f gen.M) {
+			node(f, 0)["exits"].([]any)[0].(gen.M)["destination_uuid"] = gen.NamedUUID("node:nowhere")
+		}))
 		add("invalid-default-category-unknown", mk(func(f gen.M) { node(f, 0)["router"].(gen.M)["default_category_uuid"] = gen.NamedUUID("cat:nowhere") }))
 		add("invalid-timeout-category-unknown", mk(func(f gen.M) {
 			node(f, 0)["router"].(gen.M)["wait"] = gen.M{"type": "msg", "timeout": gen.M{"seconds": 60, "category_uuid": gen.NamedUUID("cat:nowhere")}}
 		}))
-		add("invalid-case-category-unknown", mk(func(f gen.M) { node(f, 0)["router"].(gen.M)["cases"].([]any)[0].(gen.M)["category_uuid"] = gen.NamedUUID("cat:nowhere") }))
+		add("invalid-case-category-unknown", mk(func(f gen.M) {
+			node(f, 0)["router"].(gen.M)["cases"].([]any)[0].(gen.M)["category_uuid"] = gen.NamedUUID("cat:nowhere")
+		}))
 		add("invalid-duplicate-node-uuid", mk(func(f gen.M) { node(f, 2)["uuid"] = node(f, 1)["uuid"] }))
 		add("invalid-duplicate-exit-uuid", mk(func(f gen.M) { node(f, 2)["exits"].([]any)[0].(gen.M)["uuid"] = gen.NamedUUID("exit:a2x") }))
+	}
+	// one action evaluates the same template several times in a row, and the template logs something every time (a warning for a
+	// deprecated value, an error): every one of these events is both in the run and in the sprint
+	add("repeated-logging-template-in-one-action", &gen.Scenario{
+		Assets: d.BaseAssets(d.Flow("A", "messaging", d.Node("a1", []any{
+			d.Action("r", "set_run_result", gen.M{"name": "Q1", "value": "yes", "category": "Yes"}),
+			d.Action("m", "send_msg", gen.M{"text": "@(results.q1.categories[0])", "quick_replies": []string{"@(results.q1.categories[0])", "@(results.q1.categories[0])", "@(1 / 0)", "@(1 / 0)"}, "attachments": []string{"image/jpeg:http://x.io/@(results.q1.values[0]).jpg", "image/jpeg:http://x.io/@(results.q1.values[0]).jpg"}}),
+			d.SendMsg("m2", "@(results.q1.categories[0]) @(results.q1.categories[0])"),
+		}, nil, d.Exit("a1x", "a2")), d.WaitNode("a2", "a1", nil))),
+		Trigger: d.Manual("A", nil), Resumes: []gen.M{d.MsgResume(0, "x")},
+	})
+	// a trigger of every type that carries a session-chain history, a wait, and a session start after it
+	for _, tt := range []string{"manual", "msg"} {
+		t := d.Manual("A", nil)
+		if tt == "msg" {
+			t = d.MsgTrigger("A", nil, "hi")
+		}
+		for _, since := range []int{1, 5} {
+			t2 := gen.M{}
+			for k, v := range t {
+				t2[k] = v
+			}
+			t2["history"] = gen.M{"parent_uuid": gen.NamedUUID("session:parent"), "ancestors": since + 1, "ancestors_since_input": since}
+			add(fmt.Sprintf("trigger-history-%s-%d-start-session-after-wait", tt, since), &gen.Scenario{
+				Assets: d.BaseAssets(d.Flow("A", "messaging", d.WaitNode("a1", "a2", sp("a2")),
+					d.Node("a2", []any{d.Action("ss", "start_session", gen.M{"flow": gen.M{"uuid": gen.NamedUUID("flow:A"), "name": "A"}, "contacts": []gen.M{{"uuid": gen.NamedUUID("contact:eve"), "name": "Eve"}}, "exclusions": gen.M{}})}, nil, d.Exit("a2x", "a1")))),
+				Trigger: t2, Resumes: []gen.M{d.Timeout(0), d.MsgResume(1, "x")},
+			})
+		}
 	}
 	return out
 }
